@@ -12,7 +12,8 @@ T = "RsslVerif.Thm.C04."
 LEG_GENS = ["LexTables",                      # C10: literal_int / literal_float / digit tables of preprocess/src/lexer.rs
             "FmtTables", "ParseTables",       # C09: printer precedence / spelling tables, parser levels
             "Reserved"]                       # C15: reserved words of the HLSL name generator
-LEG_MODULES = ["RsslVerif.Thm.C10", "RsslVerif.Thm.C09", "RsslVerif.Thm.C15"]
+LEG_MODULES = ["RsslVerif.Thm.C10", "RsslVerif.Thm.C09", "RsslVerif.Thm.C15",
+               "RsslVerif.Thm.C05Layers", "RsslVerif.Thm.C06"]   # the allocator's type peel (slot clause, typedef'd resources)
 LEG_THEOREMS = (
     # literals re-read exactly (C10): the shape of calculate_float64_from_parts is the modelled one, the value is the
     # nearest double / float of the digits, integers are exact or rejected
@@ -27,7 +28,14 @@ LEG_THEOREMS = (
         "roundtrip_comma_positions_partial", "literal_roundtrip_partial", "decimal_roundtrip"]] +
     # first-generation names are unique and unreserved, so the second name generation keeps them (C15)
     ["RsslVerif.Thm.C15." + n for n in [
-        "reserved_complete", "never_reserved", "injective_per_scope", "verbatim", "locals_apart_from_used"]])
+        "reserved_complete", "never_reserved", "injective_per_scope", "verbatim", "locals_apart_from_used"]] +
+    # the allocator's peel (outer modifier, sized array layer, element modifier) reads every layer chain by its array
+    # lengths and innermost object only (C05's layer-chain theorems over the re-extracted Gen.MetaTables.allocPeel) and has
+    # the statement shape of C06's model (Gen.SlotTables.allocShape): cited by C04's typedef_spelling_* theorems
+    ["RsslVerif.Thm.C05." + n for n in [
+        "peel_facts_as_modelled", "peels_read_layers", "descriptor_kind_count_from_layers",
+        "reflection_peel_agrees_with_allocator_peel", "spelling_kind_count"]] +
+    ["RsslVerif.Thm.C06.alloc_shape_as_modelled"])
 
 
 def custom(ctx):
@@ -66,7 +74,7 @@ def _source_of(ident):
             return bytes.fromhex(ident[5:]).decode("utf-8", "replace")
         except ValueError:
             return None
-    if ident.startswith(("lit:", "gen:", "decl:", "tpl:", "dfn:")):
+    if ident.startswith(("lit:", "gen:", "decl:", "tpl:", "dfn:", "tdr:")):
         try:
             r = subprocess.run([_harness_exe(), "c04", "source", ident], capture_output=True, text=True, timeout=60)
         except Exception:
@@ -275,6 +283,10 @@ def _typed_int_template_arguments_only(src):
     return True
 
 
+ELEMENT_CONST_KEY = ("not-fixpoint: the const a typedef puts on the element type of a typedef'd resource array is printed on "
+                     "the exported declaration and not printed again")
+
+
 PROTO_PARAMS_KEY = "decl-forms:emitted-prototype-carries-the-parameter-list-of-the-definition/"
 
 
@@ -288,6 +300,10 @@ def finding_key(req, obs, detail):
         # definition and n lies between the two / with `'X' was not declared` on a prototype line where X is declared between
         # a prototype and the definition whose default expressions name it
         return PROTO_PARAMS_KEY + m.group(1)
+    if req.startswith("C04.fix\t") and "[tdr: element-const-of-typedef-array-printed-once]" in (detail or ""):
+        # named on the two emitted texts alone (harness/src/c04/tdres.rs split_const_lines): EVERY differing line differs by
+        # exactly a leading `const ` on a global resource array declaration, and the slots are the same
+        return ELEMENT_CONST_KEY
     if req.startswith("C04.fix\ttpl:") and "[tpl: int32-template-argument-printed-bare]" in (detail or ""):
         # named by the generator's own record of argument kinds (harness/src/c04/tmpl.rs classify): the first differing
         # line lies in an instance every call of which was written with an Int32 argument
@@ -344,6 +360,9 @@ SPEC = {
         "slots_stable", "run_explicit", "step_explicit",
         "dx_params", "slots_stable_reread", "annotations_stable", "reread_names_group",
         "reread_table_agrees", "cast_drop_agrees", "reread_only_int32",
+        # resources declared through typedefs: the exported direct spelling is the same declaration to the allocator
+        "slot_peel_as_modelled", "toSlot_of_dims_base", "exported_dims", "typedef_spelling_same_slot",
+        "typedef_spelling_slots_stable", "mutant_peel_moves_slots",
         "reelab_no_new_casts", "reelab_stmt_no_new_casts", "export_is_source", "unelab_is_export", "renamed_exists",
         "reelab_idempotent", "out_arguments_plain", "out_arguments_plain_stmt", "out_argument_conversion_rejected",
         "bridge_square", "skeleton_and_constants", "reread_payloads_as_modelled", "leaf_value_preserved", "parsesBack_of_c09", "fixpoint_expr", "fixpoint_expr_text", "fixpoint_stmt",
@@ -390,7 +409,19 @@ SPEC = {
             "prototype-default-dropped (refused call of F with n arguments, F's first declaration is a prototype with more "
             "defaults than its definition, n between the two) and definition-default-printed-on-earlier-prototype (`'X' was not "
             "declared` on a prototype line, X declared between a prototype and the definition whose defaults name it) are the two "
-            "known classes of one defect; any other failure is a violation. C04.fix tpl: function templates with value parameters (int / uint / bool, `typename T, T N`, two parameters) and type "
+            "known classes of one defect; any other failure is a violation. C04.fix tdr: resources and resource arrays "
+            "declared THROUGH TYPEDEFS (harness/src/c04/tdres.rs) - 1..3 typedef families over one of 14 object types: "
+            "`typedef [const] <obj> TO;`, `typedef [const] <obj | TO> TA[n];`, 0..2 aliases `typedef [const] <prev> TC;`; 3..8 "
+            "resources spelled direct / direct array / through the object typedef (with or without a declarator dimension) / "
+            "through the array typedef / through an alias of it, with or without `const`, attribute none | bind_group | "
+            "register(<letter><i>) | register(.., space<k>) | register(space<k>) (on an array-typedef'd declaration 1 time in "
+            "30: refused by the front end), a cbuffer with / without register in front, between or after, uses of elements; every "
+            "program has a typedef'd array that is not the last resource, so a resource that loses or gains slots moves a "
+            "follower; the exporter prints no typedef, so the second generation sees other layer chains (const outside vs "
+            "inside the array layer); one known class, decided on the two emitted texts alone (every differing line differs by "
+            "exactly a leading `const ` on a root-level resource array declaration with a register annotation, slots equal: the "
+            "const a typedef put on the ELEMENT type of a typedef'd array is printed once - lines of the class are passed over "
+            "when the first differing line is reported); any other failure is a violation. C04.fix tpl: function templates with value parameters (int / uint / bool, `typename T, T N`, two parameters) and type "
             "parameters deduced from literal arguments; bodies combine the parameter with untyped literals in int / uint / float "
             "contexts (initialisers, compound assignments, operands, loop bounds, ?:, case labels, overloaded-function and intrinsic "
             "arguments, unary operators, array sizes); arguments are unsuffixed / suffixed literals and literal expressions, bools "
@@ -528,6 +559,11 @@ SPEC = {
         "Model/FixpointBridge.lean: erase (abstraction map between the two IR models, not a mirror of code), readBack (what "
         "parse_expr_internal does with each syntax node before typing), rereadConst / negConst / retagTo (payloads; tied by "
         "reread_payloads_as_modelled and by the value-level byte comparison of the correspondence runs)",
+        "Model/MetaLayers.lean (C05: Ty layer chains, applyOp / runPeel, globalTy = parse_globaltype + parse_declarator + "
+        "parse_rootdefinition_typedef, tied by C05's correspondence run C05.layers) and Gen.MetaTables.allocPeel / "
+        "Gen.SlotTables.allocShape; RDecl.exportedTy of Thm/C04.lean (what the exporter prints for a typedef'd resource: object type "
+        "and all array layers on the declarator, no const) is hand-written and tied by the C04.fix tdr stream through the "
+        "property's own oracle only",
         "tools/gens/c04.py (FixpointTables: parse_literal, the to_literal test of the Cast arm, the literal shortcut of apply)",
         "Model/FixpointTemplate.lean (restrictKind / recordKind / instanceKind / secondRecordKind / substValue: the way of a template "
         "value argument) - tied by template_const_as_modelled (tools/gens/c04.py TemplateConst) and by the C04.fix tpl stream "
@@ -577,6 +613,8 @@ SPEC = {
         "correspondence run and its oracle only; the dfn stream has no driver op (the model side of C04.fix answers "
         "`unsupported`): the tie of Model.FixpointProto is the extractor, and the stream's classifier applies exactly the "
         "condition of emitted_call_iff to the source text",
+        "typedef_spelling_* cover chains over an OBJECT type (resources); unsized declarator dimensions and chains with two "
+        "array layers are in the theorems (they get no slot in either generation) but not in the tdr generator",
         "in the second generation no pipeline is selected (default bind group 0), as in the property's observation point",
     ],
 }
